@@ -100,7 +100,7 @@ def check_case(case, info=None):
             again = auto_of(r.tree)
             if again != line:
                 bad('reprint-differs', f'printed {line!r}, re-printed after reading {again!r}')
-            frag = ' '.join(l.split('\t')[-1] for l in conll_of(orig).split('\n') if l.strip())
+            frag = ' '.join(l.split('\t')[-1] for l in conll_of(orig).split('\n') if l.strip() and not l.startswith('#'))
             if frag != line:
                 bad('conll-fragments', f'conll last column joins to {frag!r}, auto line is {line!r}')
     finally:
